@@ -6,6 +6,7 @@
 From Coq Require Import ZArith List.
 From FV Require Import Base.Res Base.Bytes Model.Headers Model.Receivers Model.Context
   Proofs.HeadersMapProofs Proofs.ContextProofs.
+From FV Require Import Gen.CtxLockSites Model.LockPaths Proofs.LockPathsProofs.
 Import ListNotations.
 Open Scope Z_scope.
 
@@ -95,6 +96,26 @@ Theorem c17_frame : forall s o s', step s o = Some s' ->
   /\ (exists l, protos s' = protos s ++ l).
 Proof. exact step_frame. Qed.
 Print Assumptions c17_frame.
+
+(** lock discipline, on data REGENERATED from lib/go/context.go on every build (Gen/CtxLockSites.v):
+    on every control-flow path of every FContextImpl method, each access to a guarded map lies inside a
+    matching critical section, writes inside exclusive ones, nothing is locked twice or left locked,
+    and no locking method is called while the lock is held *)
+Theorem c17_guarded : all_guarded context_methods = true.
+Proof. vm_compute. reflexivity. Qed.
+Print Assumptions c17_guarded.
+
+(** ... and what that discipline buys, in an interleaving semantics of sync.RWMutex: for ANY set of
+    paths that pass the check, run concurrently under ANY schedule, a thread about to write a guarded
+    map is never concurrent with another thread about to read or write it. With c17_guarded this is
+    the justification for treating each FContext method as one atomic step in Model/Context.v *)
+Theorem c17_guarded_accesses_never_conflict : forall paths sched s i j ti tj,
+  forallb (path_ok HNone false) paths = true ->
+  mrun (minit paths) sched = Some s ->
+  nth_error (threads s) i = Some ti -> nth_error (threads s) j = Some tj -> i <> j ->
+  about_to ti CWrite -> ~ about_to tj CWrite /\ ~ about_to tj CRead.
+Proof. exact no_conflicting_access. Qed.
+Print Assumptions c17_guarded_accesses_never_conflict.
 
 (** non-vacuity: a history with a created, a cloned and a received context, header writes on both
     sides of the clone and a write into a getter's copy *)
